@@ -19,9 +19,69 @@ type deferred struct {
 	args []Value
 }
 
+type funcInfo struct {
+	name   string
+	model  Model
+	skip   bool
+	noBody bool
+	index  map[ssa.Value]int
+	nvals  int
+}
+
+func (m *Machine) info(fn *ssa.Function) *funcInfo {
+	if fi, ok := m.finfo[fn]; ok {
+		return fi
+	}
+	fi := &funcInfo{name: fn.String()}
+	if fn.Synthetic == "package initializer" && fn.Pkg != nil && !m.P.initSet[fn.Pkg.Pkg.Path()] {
+		fi.skip = true
+	}
+	if mod, ok := m.P.models[fi.name]; ok {
+		fi.model = mod
+	} else if fn.Blocks == nil {
+		if mod, ok := m.P.models["*."+fn.Name()]; ok {
+			fi.model = mod
+		} else {
+			fi.noBody = true
+		}
+	} else if mod := m.modelByPattern(fn); mod != nil {
+		fi.model = mod
+	}
+	if fi.model == nil && !fi.noBody {
+		fi.index = map[ssa.Value]int{}
+		n := 0
+		for _, p := range fn.Params {
+			fi.index[p] = n
+			n++
+		}
+		for _, fv := range fn.FreeVars {
+			fi.index[fv] = n
+			n++
+		}
+		for _, b := range fn.Blocks {
+			for _, ins := range b.Instrs {
+				if v, ok := ins.(ssa.Value); ok {
+					fi.index[v] = n
+					n++
+				}
+			}
+		}
+		fi.nvals = n
+	}
+	m.finfo[fn] = fi
+	return fi
+}
+
+type envT struct {
+	vals []Value
+	idx  map[ssa.Value]int
+}
+
+func (e *envT) set(k ssa.Value, v Value) { e.vals[e.idx[k]] = v }
+
 type Frame struct {
 	fn        *ssa.Function
-	env       map[ssa.Value]Value
+	env       envT
 	defers    []deferred
 	panicking *GuestPanic
 	recovered bool
@@ -104,11 +164,16 @@ func (m *Machine) get(fr *Frame, v ssa.Value) Value {
 	case *ssa.Builtin:
 		m.unsupported("builtin %s as value", x.Name())
 	}
-	r, ok := fr.env[v]
-	if !ok {
+	i, ok := fr.env.idx[v]
+	if !ok || fr.env.vals[i] == nil {
+		if ok {
+			if _, isCall := v.(*ssa.Call); isCall {
+				return nil
+			}
+		}
 		panic(fmt.Sprintf("internal: no value for %s (%T) in %s", v.Name(), v, fr.fn))
 	}
-	return r
+	return fr.env.vals[i]
 }
 
 func (m *Machine) term(fr *Frame, v ssa.Value) *Term {
@@ -123,35 +188,26 @@ func (m *Machine) term(fr *Frame, v ssa.Value) *Term {
 // ---------- calls ----------
 
 func (m *Machine) callFunction(fn *ssa.Function, args []Value, caller *Frame) Value {
-	name := fn.String()
-	if fn.Synthetic == "package initializer" && fn.Pkg != nil && !m.P.initSet[fn.Pkg.Pkg.Path()] {
+	fi := m.info(fn)
+	if fi.skip {
 		return nil // initialisers of packages outside the executed set are not run (their globals are modelled)
 	}
-	if mod, ok := m.P.models[name]; ok {
-		m.stats.ModelsHit[name]++
-		return mod(m, caller, args)
+	if fi.model != nil {
+		m.stats.ModelsHit[fi.name]++
+		return fi.model(m, caller, args)
 	}
-	if fn.Blocks == nil {
-		// linknamed / assembly without model
-		if mod, ok := m.P.models["*."+fn.Name()]; ok {
-			m.stats.ModelsHit[name]++
-			return mod(m, caller, args)
-		}
-		m.unsupported("function without body: %s", name)
+	if fi.noBody {
+		m.unsupported("function without body: %s", fi.name)
 	}
-	if mod := m.modelByPattern(fn); mod != nil {
-		m.stats.ModelsHit[name]++
-		return mod(m, caller, args)
-	}
-	m.stats.Funcs[name] = true
+	m.stats.Funcs[fi.name] = true
 	m.depth++
 	if m.depth > m.cfg.MaxDepth {
-		panic(&pathEnd{"steplimit", fmt.Sprintf("call depth %d exceeded in %s", m.cfg.MaxDepth, name)})
+		panic(&pathEnd{"steplimit", fmt.Sprintf("call depth %d exceeded in %s", m.cfg.MaxDepth, fi.name)})
 	}
 	m.callstack = append(m.callstack, fn.Name())
-	fr := &Frame{fn: fn, env: make(map[ssa.Value]Value, 32), caller: caller}
+	fr := &Frame{fn: fn, env: envT{vals: make([]Value, fi.nvals), idx: fi.index}, caller: caller}
 	for i, p := range fn.Params {
-		fr.env[p] = args[i]
+		fr.env.set(p, args[i])
 	}
 	res := m.run(fr, args[len(fn.Params):])
 	m.callstack = m.callstack[:len(m.callstack)-1]
@@ -163,7 +219,7 @@ func (m *Machine) callFunction(fn *ssa.Function, args []Value, caller *Frame) Va
 func (m *Machine) run(fr *Frame, bindings []Value) (result Value) {
 	fn := fr.fn
 	for i, fv := range fn.FreeVars {
-		fr.env[fv] = bindings[i]
+		fr.env.set(fv, bindings[i])
 	}
 	defer func() {
 		if r := recover(); r != nil {
@@ -340,7 +396,7 @@ func (m *Machine) execFrom(fr *Frame, blk *ssa.BasicBlock, prev *ssa.BasicBlock)
 				vals[i] = m.get(fr, blk.Instrs[i].(*ssa.Phi).Edges[idx])
 			}
 			for i := 0; i < nphi; i++ {
-				fr.env[blk.Instrs[i].(*ssa.Phi)] = vals[i]
+				fr.env.set(blk.Instrs[i].(*ssa.Phi), vals[i])
 			}
 		}
 		var next *ssa.BasicBlock
@@ -412,47 +468,47 @@ func (m *Machine) exec(fr *Frame, ins ssa.Instruction) {
 	case *ssa.Alloc:
 		et := x.Type().(*types.Pointer).Elem()
 		b := m.allocObj(et, 1, "alloc "+x.Comment+" in "+fr.fn.Name())
-		fr.env[x] = m.ptr(b)
+		fr.env.set(x, m.ptr(b))
 	case *ssa.Store:
 		m.store(m.term(fr, x.Addr), x.Val.Type(), m.get(fr, x.Val))
 	case *ssa.UnOp:
-		fr.env[x] = m.unop(fr, x)
+		fr.env.set(x, m.unop(fr, x))
 	case *ssa.BinOp:
-		fr.env[x] = m.binop(x.Op, x.X.Type(), x.Y.Type(), m.get(fr, x.X), m.get(fr, x.Y))
+		fr.env.set(x, m.binop(x.Op, x.X.Type(), x.Y.Type(), m.get(fr, x.X), m.get(fr, x.Y)))
 	case *ssa.Convert:
-		fr.env[x] = m.convert(x.X.Type(), x.Type(), m.get(fr, x.X))
+		fr.env.set(x, m.convert(x.X.Type(), x.Type(), m.get(fr, x.X)))
 	case *ssa.ChangeType:
-		fr.env[x] = m.get(fr, x.X)
+		fr.env.set(x, m.get(fr, x.X))
 	case *ssa.ChangeInterface:
-		fr.env[x] = m.get(fr, x.X)
+		fr.env.set(x, m.get(fr, x.X))
 	case *ssa.MakeInterface:
-		fr.env[x] = m.makeIface(x.X.Type(), m.get(fr, x.X))
+		fr.env.set(x, m.makeIface(x.X.Type(), m.get(fr, x.X)))
 	case *ssa.SliceToArrayPointer:
 		s := m.get(fr, x.X).(Agg)
 		n := x.Type().(*types.Pointer).Elem().Underlying().(*types.Array).Len()
 		if !m.branch(c.Ule(c.Const(uint64(n), 64), s[1].(*Term))) {
 			panic(&GuestPanic{runtime: true, msg: "cannot convert slice to array pointer: length too short", site: m.site()})
 		}
-		fr.env[x] = s[0]
+		fr.env.set(x, s[0])
 	case *ssa.FieldAddr:
 		st := x.X.Type().Underlying().(*types.Pointer).Elem().Underlying().(*types.Struct)
 		base := m.term(fr, x.X)
 		if bt := m.simp(base); bt.IsConst() && bt.Val < nilPage {
 			panic(&GuestPanic{runtime: true, msg: "invalid memory address or nil pointer dereference", site: m.site()})
 		}
-		fr.env[x] = m.addOff(base, m.fieldOffsets(st)[x.Field])
+		fr.env.set(x, m.addOff(base, m.fieldOffsets(st)[x.Field]))
 	case *ssa.Field:
-		fr.env[x] = m.get(fr, x.X).(Agg)[x.Field]
+		fr.env.set(x, m.get(fr, x.X).(Agg)[x.Field])
 	case *ssa.IndexAddr:
-		fr.env[x] = m.indexAddr(fr, x)
+		fr.env.set(x, m.indexAddr(fr, x))
 	case *ssa.Index:
-		fr.env[x] = m.index(fr, x)
+		fr.env.set(x, m.index(fr, x))
 	case *ssa.Slice:
-		fr.env[x] = m.sliceOp(fr, x)
+		fr.env.set(x, m.sliceOp(fr, x))
 	case *ssa.Extract:
-		fr.env[x] = m.get(fr, x.Tuple).(Agg)[x.Index]
+		fr.env.set(x, m.get(fr, x.Tuple).(Agg)[x.Index])
 	case *ssa.Call:
-		fr.env[x] = m.call(fr, &x.Call)
+		fr.env.set(x, m.call(fr, &x.Call))
 	case *ssa.Defer:
 		fr.defers = append(fr.defers, m.mkDeferred(fr, &x.Call))
 	case *ssa.RunDefers:
@@ -466,7 +522,7 @@ func (m *Machine) exec(fr *Frame, ins ssa.Instruction) {
 		for _, bd := range x.Bindings {
 			b.bindings = append(b.bindings, m.get(fr, bd))
 		}
-		fr.env[x] = m.ptr(b)
+		fr.env.set(x, m.ptr(b))
 	case *ssa.MakeSlice:
 		et := x.Type().Underlying().(*types.Slice).Elem()
 		ln := m.toInt64(m.term(fr, x.Len), x.Len.Type())
@@ -480,20 +536,20 @@ func (m *Machine) exec(fr *Frame, ins ssa.Instruction) {
 			m.unsupported("make([]T, %d) too large for the engine", k)
 		}
 		b := m.allocObj(et, k, "make([]"+et.String()+")")
-		fr.env[x] = Agg{m.ptr(b), c.Const(uint64(n), 64), c.Const(uint64(k), 64)}
+		fr.env.set(x, Agg{m.ptr(b), c.Const(uint64(n), 64), c.Const(uint64(k), 64)})
 	case *ssa.MakeMap:
-		fr.env[x] = m.newMap(x.Type())
+		fr.env.set(x, m.newMap(x.Type()))
 	case *ssa.MapUpdate:
 		mt := x.Map.Type().Underlying().(*types.Map)
 		m.mapUpdate(m.term(fr, x.Map), mt, m.get(fr, x.Key), m.get(fr, x.Value))
 	case *ssa.Lookup:
-		fr.env[x] = m.lookup(fr, x)
+		fr.env.set(x, m.lookup(fr, x))
 	case *ssa.Range:
-		fr.env[x] = m.rangeInit(fr, x)
+		fr.env.set(x, m.rangeInit(fr, x))
 	case *ssa.Next:
-		fr.env[x] = m.rangeNext(fr, x)
+		fr.env.set(x, m.rangeNext(fr, x))
 	case *ssa.TypeAssert:
-		fr.env[x] = m.typeAssert(fr, x)
+		fr.env.set(x, m.typeAssert(fr, x))
 	case *ssa.Go:
 		m.goStmt(fr, x)
 	default:
